@@ -1,37 +1,54 @@
 #!/usr/bin/env python3
-"""Self-test of the `timer` engine's binding: applies each mutation of selftest.json to the scratch worktree,
-runs ./check C07 --engine timer on it, expects exit 1 (violation) / exit 0 (clean), reverts.
-usage: selftest.py [--full] [name ...]   (default: only the sub-engine the mutant concerns, via TIMER_ONLY)"""
+"""Self-test of the `timer` engine's binding: for each mutation of selftest.json: reset the scratch worktree to
+HEAD + hooks.patch, apply the mutation, run ./check C07 --engine timer on it, expect exit 1 (violation) / 0 (clean), reset.
+usage: selftest.py [--full] [name ...]
+default: only the sub-engine(s) the mutant concerns (TIMER_ONLY) with the reduced scenario sets (TIMER_MINI);
+--full: the whole quick tier.  TIMER_WT = scratch worktree of /repo (default /tmp/wt_timer2)."""
 import json, os, subprocess, sys, time
-WT = os.environ.get("TIMER_WT", "/tmp/wt_timer")
+WT = os.environ.get("TIMER_WT", "/tmp/wt_timer2")
 HERE = os.path.dirname(os.path.abspath(__file__))
 VERIF = os.path.dirname(os.path.dirname(HERE))
 muts = json.load(open(os.path.join(HERE, "selftest.json")))
+hooks = open(os.path.join(HERE, "hooks.patch")).read()
 args = [a for a in sys.argv[1:] if not a.startswith("--")]
 full = "--full" in sys.argv
+
+
+def reset():
+    subprocess.run(["git", "checkout", "-q", "."], cwd=WT, check=True)
+    if hooks.strip() and subprocess.run(["git", "apply", "--check", "-"], cwd=WT, input=hooks, text=True,
+                                        stderr=subprocess.DEVNULL).returncode == 0:
+        subprocess.run(["git", "apply", "-"], cwd=WT, input=hooks, text=True, check=True)   # not yet part of HEAD
+
+
 res = []
 for m in muts:
     if args and m["name"] not in args:
         continue
-    subprocess.run(["git", "checkout", "-q", "."], cwd=WT, check=True)
+    reset()
     p = subprocess.run(["git", "apply", "-"], cwd=WT, input=m["patch"], text=True)
     assert p.returncode == 0, m["name"]
-    env = dict(os.environ, VERIF_REPO=WT, VERIF_JOBS=os.environ.get("VERIF_JOBS", "4"),
-               VERIF_KNOWN_EXTRA=os.path.join(HERE, "proposed_findings.json"))
-    if not full and m.get("part"):
-        env["TIMER_ONLY"] = m["part"]
-        env["TIMER_MINI"] = "1"
-    elif not full:
-        env["TIMER_MINI"] = "1"
-    t0 = time.time()
+    env = dict(os.environ, VERIF_REPO=WT, VERIF_JOBS=os.environ.get("VERIF_JOBS", "4"))
+    if os.path.exists(os.path.join(HERE, "proposed_findings.json")):
+        env["VERIF_KNOWN_EXTRA"] = os.path.join(HERE, "proposed_findings.json")
+    parts = [x for x in (m.get("part") or "").split(",") if x]
+    runs = [None] if (full or not parts) else parts
+    t0, rcs, first = time.time(), [], []
     try:
-        r = subprocess.run(["timeout", "1500", "./check", "C07", "--tier", "quick", "--engine", "timer"], cwd=VERIF, env=env,
-                           stdout=subprocess.PIPE, stderr=subprocess.STDOUT, text=True)
+        for part in runs:
+            e = dict(env)
+            if not full:
+                e["TIMER_MINI"] = "1"
+            if part:
+                e["TIMER_ONLY"] = part
+            r = subprocess.run(["timeout", "2400", "./check", "C07", "--tier", "quick", "--engine", "timer"], cwd=VERIF, env=e,
+                               stdout=subprocess.PIPE, stderr=subprocess.STDOUT, text=True)
+            rcs.append(r.returncode)
+            first += [l for l in r.stdout.splitlines() if l.startswith("VIOLATION") or l.startswith("  ") or l.startswith("BROKEN")][:2]
     finally:
-        subprocess.run(["git", "checkout", "-q", "."], cwd=WT, check=True)
+        reset()
     want = 1 if m["expect"] == "violation" else 0
-    first = [l for l in r.stdout.splitlines() if l.startswith("VIOLATION") or l.startswith("  ")][:2]
-    ok = r.returncode == want
-    res.append(dict(name=m["name"], expect=m["expect"], exit=r.returncode, ok=ok, secs=round(time.time() - t0), first=first))
+    ok = all(rc == want for rc in rcs)
+    res.append(dict(name=m["name"], expect=m["expect"], exit=rcs, ok=ok, secs=round(time.time() - t0), first=first[:2]))
     print(json.dumps(res[-1]), flush=True)
 print("SELFTEST", "OK" if all(x["ok"] for x in res) else "FAILED")
